@@ -121,6 +121,7 @@ SUITE_ARGS = {
     "bytes": ["bytes"],
     "emplace": ["emplace"],
     "ops": ["ops"],
+    "portable": ["portable"],
     "io": ["io"],
     "aio": ["aio"],
 }
@@ -681,6 +682,107 @@ def check_io_line(kind, lhs, o, want, sizes, stream):
         return None
     return None
 
+# ---- portable scalars and composites --------------------------------------------------------------------
+def parse_port(r):
+    d = {"cls": "port", "raw": r}
+    for tok in r.split(" "):
+        if "=" in tok:
+            k, v = tok.split("=", 1); d[k] = v
+    return d
+def proj_C16(lhs, o, t):
+    return (o.get("raw"),)
+def oracle_C16(lhs, o, t):
+    if o.get("nat") != "1": return "the portable type disagrees with its native counterpart (stored bytes, round trip, conversion, operator or ordering)"
+    if "al" in o and o["al"] != "1": return f"alignment {o['al']}"
+    return None
+def is_portable(t): return "portable" in t.get("flags", "")
+def proj_C17(lhs, o, t):
+    if lhs[0] == "E" and is_portable(t) and o["cls"] == "ok":
+        return (o.get("after"), o.get("p"))
+    if lhs[0] == "B" and is_portable(t):
+        return (o["cls"], o.get("kind"), o.get("pos"), o.get("w"))
+    return ()
+def oracle_C17(lhs, o, t, om):
+    if not is_portable(t): return None
+    if t["align"] != 1: return f"portable type with ALIGN {t['align']}"
+    if lhs[0] == "E" and o["cls"] == "ok":
+        p = probe_fields(o.get("p"))
+        ser = om.get("ser")
+        if ser is None: return "the model does not regard this type as padding-free (alignment-1 shape)"
+        a = o.get("after_raw", o.get("after"))
+        z = p["z"] if p and p["ok"] else 0
+        serh = "" if ser == "-" else ser
+        ma = om.get("after") or ""
+        # bytes of a sized enum beyond its active variant are not content (the model marks them `..`)
+        if len(serh) != 2 * z or any(a[i:i+2] != serh[i:i+2] and ma[i:i+2] != ".." for i in range(0, 2 * z, 2)):
+            return f"image {a[:2*z]} differs from the reference serialisation {serh}"
+    if lhs[0] == "B" and o["cls"] == "err" and o.get("kind") == "badAlign": return "a portable type refused an address (BadAlign)"
+    return None
+def negative_programs(fp):
+    """definitions the model's `Portable` shape rejects must be refused by rustc; controls must compile"""
+    cdir = os.path.join(BUILD, "neg")
+    cache = os.path.join(cdir, f"result-{fp}.json")
+    if os.path.exists(cache):
+        return json.load(open(cache))
+    pre = "#![allow(dead_code)]\nuse flatty::{flat, FlatVec, FlexVec, FlatString, Portable, portable::{le, be, Bool}};\nfn ap<T: Portable + ?Sized>() {}\n"
+    progs = {
+        "neg_tag_u16": ('#[flat(portable = true, tag_type = "u16")] enum E { A, B(u8) }\nfn main() { ap::<E>(); }', False),
+        "neg_tag_u32_unsized": ('#[flat(sized = false, portable = true, tag_type = "u32")] enum E { A, B(u8, FlatVec<u8, u8>) }\nfn main() { ap::<E>(); }', False),
+        "neg_field_u16": ('#[flat(portable = true)] struct S { a: u8, b: u16 }\nfn main() { ap::<S>(); }', False),
+        "neg_field_f32": ('#[flat(portable = true)] struct S { a: f32 }\nfn main() { ap::<S>(); }', False),
+        "neg_field_usize": ('#[flat(portable = true)] enum E { A(usize), B }\nfn main() { ap::<E>(); }', False),
+        "neg_vec_native_len": ('fn main() { ap::<FlatVec<u8, u16>>(); }', False),
+        "neg_vec_native_elem": ('fn main() { ap::<FlatVec<u32, le::U16>>(); }', False),
+        "neg_string_native_len": ('fn main() { ap::<FlatString<u32>>(); }', False),
+        "neg_flex_native_len": ('fn main() { ap::<FlexVec<FlatVec<u8, u8>, u64>>(); }', False),
+        "neg_array_native": ('fn main() { ap::<[u16; 2]>(); }', False),
+        "neg_unsized_field": ('#[flat(sized = false, portable = true)] struct S { a: le::U16, v: FlatVec<u8, u32> }\nfn main() { ap::<S>(); }', False),
+        "pos_struct": ('#[flat(portable = true)] struct S { a: le::U16, b: Bool, c: be::U32, d: u8 }\nfn main() { ap::<S>(); assert_eq!(<S as flatty::prelude::FlatBase>::ALIGN, 1); }', True),
+        "pos_enum_unsized": ('#[flat(sized = false, portable = true)] enum E { A, B(le::U16, Bool), C { n: be::U32, v: FlatVec<le::U16, be::U16> } }\nfn main() { ap::<E>(); }', True),
+        "pos_containers": ('fn main() { ap::<FlatVec<le::U16, be::U16>>(); ap::<FlatString<le::U32>>(); ap::<FlexVec<FlatVec<u8, u8>, le::U16>>(); ap::<[be::F64; 3]>(); }', True),
+    }
+    os.makedirs(cdir, exist_ok=True)
+    res = {}
+    lock_src = os.path.join(REPO, "Cargo.lock")
+    if not os.path.exists(lock_src):
+        lock_src = os.path.join(HARNESS_SRC, "Cargo.lock.repo")
+    import concurrent.futures
+    def one(name):
+        src, should = progs[name]
+        d = os.path.join(cdir, name)
+        os.makedirs(os.path.join(d, "src"), exist_ok=True)
+        os.makedirs(os.path.join(d, ".cargo"), exist_ok=True)
+        open(os.path.join(d, "Cargo.toml"), "w").write(f'[package]\nname = "{name}"\nversion = "0.0.0"\nedition = "2021"\n[workspace]\n[dependencies]\nflatty = {{ path = "{REPO}" }}\n')
+        open(os.path.join(d, ".cargo", "config.toml"), "w").write("[net]\noffline = true\n")
+        open(os.path.join(d, "src", "main.rs"), "w").write(pre.replace("\\n", "\n") + src.replace("\\n", "\n") + "\n")
+        shutil.copy(lock_src, os.path.join(d, "Cargo.lock"))
+        rc, out = sh(["cargo", "check", "--offline", "--quiet"], cwd=d, env={"CARGO_TARGET_DIR": os.path.join(cdir, "target")}, timeout=900)
+        compiled = rc == 0
+        about_portable = "Portable" in out
+        return name, dict(should_compile=should, compiled=compiled, ok=(compiled == should) and (should or about_portable), detail="" if compiled == should else out[-600:])
+    # the first one alone (it builds the dependencies), the rest in parallel on the shared target dir
+    names = list(progs)
+    n0, r0 = one(names[0]); res[n0] = r0
+    with concurrent.futures.ThreadPoolExecutor(max_workers=4) as ex:
+        for n, r in ex.map(one, names[1:]):
+            res[n] = r
+    for f in os.listdir(cdir):
+        if f.startswith("result-"):
+            os.remove(os.path.join(cdir, f))
+    json.dump(res, open(cache, "w"))
+    return res
+def post_C17(cases):
+    out = []
+    fp = repo_fingerprint()
+    with Lock():
+        res = negative_programs(fp)
+    for name, r in res.items():
+        if not r["ok"]:
+            what = (f"program `{name}` (a definition outside the model's Portable shape) is accepted by rustc: the code's set of Portable impls is larger than the theorem covers"
+                    if not r["should_compile"] else f"control program `{name}` does not compile: {r['detail'][-300:]}")
+            out.append(("negative-programs", f"N {name}", "compiled" if r["compiled"] else "refused", "refused" if not r["should_compile"] else "compiled", what))
+    return out
+
 PROPS = {
     "C01": dict(module="FV.Props.C01", theorems=["FV.Props.C01_validate_total", "FV.Props.C01_from_bytes_total"], suites=["bytes"], proj=proj_C01, oracle=oracle_C01),
     "C02": dict(module="FV.Props.C02", theorems=["FV.Props.C02_view_within", "FV.Props.C02_truncation_validates"], suites=["bytes"], proj=proj_C02, oracle=oracle_C02),
@@ -698,6 +800,8 @@ PROPS = {
     "C08": dict(module="FV.Props.C08", theorems=["FV.Props.C08_sender_refines_blocking"], suites=["aio"], proj=proj_C08, oracle=oracle_io_basic, post=post_io("C08")),
     "C09": dict(module="FV.Props.C09", theorems=["FV.Props.C09_send_fault"], suites=["io", "aio"], proj=proj_C09, oracle=oracle_io_basic, post=post_io("C09")),
     "C10": dict(module="FV.Props.C10", theorems=["FV.Props.C10_recv_never_faults"], suites=["io", "aio"], proj=proj_C10, oracle=oracle_io_basic, post=post_io("C10")),
+    "C16": dict(module="FV.Props.C16", theorems=["FV.Props.C16_size", "FV.Props.C16_byte_order", "FV.Props.C16_native_roundtrip", "FV.Props.C16_bytes_roundtrip", "FV.Props.C16_eq_iff", "FV.Props.C16_delegates", "FV.Props.C16_bool_validate"], suites=["portable"], proj=proj_C16, oracle=oracle_C16),
+    "C17": dict(module="FV.Props.C17", theorems=["FV.Props.C17_align_one", "FV.Props.C17_no_padding"], suites=["emplace", "bytes"], proj=proj_C17, oracle=oracle_C17, post=post_C17),
     "C06": dict(module="FV.Props.C06", theorems=["FV.Props.C06_prefix_insufficient", "FV.Props.C06_extension_same"], suites=["bytes"], proj=proj_C06, oracle=oracle_C06),
 }
 
@@ -751,7 +855,7 @@ def lean_obligations(prop, cfg, thorough):
 # ------------------------------------------------------------------------------------------------
 # known findings
 # ------------------------------------------------------------------------------------------------
-SUITE_PARSE = {"bytes": parse_rhs, "emplace": parse_emp, "ops": parse_emp, "io": parse_io, "aio": parse_io}
+SUITE_PARSE = {"bytes": parse_rhs, "emplace": parse_emp, "ops": parse_emp, "io": parse_io, "aio": parse_io, "portable": parse_port}
 
 def load_known():
     p = os.path.join(VERIF, "known_findings.json")
@@ -809,8 +913,8 @@ def check_property(prop, tier, seed):
                 if f"align={t['align']} min={t['min']}" not in t["model"]:
                     mismatch_findings.append(Finding(prop, "correspondence", sname, f"T {tid} {t['name']} {t['desc']}", f"align={t['align']} min={t['min']}", t["model"], "ALIGN / MIN_SIZE of the type differ between implementation and model"))
             for lhs, rhs, mo in cases:
-                tid = int(lhs.split(" ")[1])
-                t = types[tid]
+                f1 = lhs.split(" ")[1] if " " in lhs else ""
+                t = types.get(int(f1), types[0]) if f1.isdigit() else types[0]
                 parse = SUITE_PARSE[sname]
                 oi, om = parse(rhs), parse(mo)
                 if "sink" in oi:
@@ -918,7 +1022,7 @@ def check_property(prop, tier, seed):
 
 def setup():
     with Lock():
-        ok, out = build_lean(["FV", "Driver", "fvdriver"])
+        ok, out = build_lean(["FV", "fvdriver"] + sorted({c["module"] for c in PROPS.values()}))
         if not ok:
             print(out[-3000:]); return 1
         ok, out = build_harness()
